@@ -5,7 +5,7 @@
    AST: id | (c v) | (pipe a b) | (comma a b) | empty | (iter t) | (index t v) | (if c a b) | (alt a b)
       | (try a) | (try a h) | (arr q) | (reduce src x init upd) | (foreach src x init upd [ext])
       | (label l body) | (break l) | (bind src x body) | (var x) | (call0 f) | (binop o a b)
-      | (def f body rest) | (callf f)
+      | (def f body rest) | (defp f ((pf g) | (pv x) ...) body rest) | (callf f arg...)
    sarg: id | (c v) | (index v) | iter | empty | (call0 f)
    values: null true false (i z) (s hex) (a v...) (o (hexkey v)...) ; ending: end | (val v) | msg *)
 From Coq Require Import List ZArith NArith Bool String.
@@ -56,6 +56,19 @@ Fixpoint dec_q (e : sexp) : option query :=
   match e with
   | Atom _ => if atom_is "id" e then Some QId else if atom_is "empty" e then Some QEmpty else None
   | SList (t :: args) =>
+      if atom_is "callf" t then
+        match args with
+        | f :: rest =>
+            match dec_name f,
+                  (fix go (l : list sexp) : option (list query) :=
+                     match l with [] => Some []
+                     | x :: r => match dec_q x, go r with Some a, Some as_ => Some (a :: as_) | _, _ => None end end) rest with
+            | Some f, Some as_ => Some (QCallF f as_)
+            | _, _ => None
+            end
+        | [] => None
+        end
+      else
       match args with
       | [x] =>
           if atom_is "c" t then option_map QConst (dec_val x)
@@ -65,7 +78,6 @@ Fixpoint dec_q (e : sexp) : option query :=
           else if atom_is "break" t then option_map QBreak (dec_name x)
           else if atom_is "var" t then option_map QVar (dec_name x)
           else if atom_is "call0" t then option_map QCall0 (dec_fn0 x)
-          else if atom_is "callf" t then option_map (fun f => QCallF f []) (dec_name x)
           else None
       | [x; y] =>
           if atom_is "pipe" t then match dec_q x, dec_q y with Some a, Some b => Some (QPipe a b) | _, _ => None end
@@ -81,6 +93,27 @@ Fixpoint dec_q (e : sexp) : option query :=
           else if atom_is "binop" t then match dec_binop x, dec_q y, dec_q z with Some o, Some a, Some b => Some (QBinop o a b) | _, _, _ => None end
           else if atom_is "def" t then match dec_name x, dec_q y, dec_q z with Some f, Some b, Some r => Some (QDef f [] b r) | _, _, _ => None end
           else None
+      | [x; SList ps; z; u] =>
+          if atom_is "defp" t then
+            match dec_name x,
+                  (fix go (l : list sexp) : option (list param) :=
+                     match l with [] => Some []
+                     | SList [k; n] :: r =>
+                         match dec_name n, go r with
+                         | Some n, Some ps => if atom_is "pf" k then Some (PF n :: ps) else if atom_is "pv" k then Some (PV n :: ps) else None
+                         | _, _ => None end
+                     | _ => None end) ps,
+                  dec_q z, dec_q u with
+            | Some f, Some ps, Some b, Some r => Some (QDef f ps b r)
+            | _, _, _, _ => None
+            end
+          else
+          match dec_q x, dec_name (SList ps), dec_q z, dec_q u with
+          | Some s, Some n, Some i, Some up =>
+              if atom_is "reduce" t then Some (QReduce s n i up)
+              else if atom_is "foreach" t then Some (QForeach s n i up None) else None
+          | _, _, _, _ => None
+          end
       | [x; y; z; u] =>
           match dec_q x, dec_name y, dec_q z, dec_q u with
           | Some s, Some n, Some i, Some up =>
